@@ -242,6 +242,13 @@ package mqtt
 //@        evCount("select") == ite(evRet[bool]("(*signaller).SubAck", 0, 1), 1, 0) && evCount("send") == 0 &&
 //@        (evCount("select") == 1 ==> evArg[chan *pktSubAck]("select", 0, 0) == evRet[chan *pktSubAck]("(*signaller).SubAck", 0, 0) &&
 //@             (evRet[int]("select", 0, 0) == 0 ==> evArg[*pktSubAck]("select", 0, 1) == evRet[*pktSubAck]("(*pktSubAck).Parse", 0, 0)))
+//@   note what is handed to a waiter is this iteration's own object: the waiter reads it later, while the reader goroutine is already parsing the next packets
+//@   loop 1 iter[C07] ack_private: evCount("select") == 1 && evRet[int]("select", 0, 0) == 0 ==>
+//@        (itType() == packetSubAck ==> iterFresh(evArg[*pktSubAck]("select", 0, 1))) &&
+//@        (itType() == packetPubAck ==> iterFresh(evArg[*pktPubAck]("select", 0, 1))) &&
+//@        (itType() == packetPubRec ==> iterFresh(evArg[*pktPubRec]("select", 0, 1))) &&
+//@        (itType() == packetPubComp ==> iterFresh(evArg[*pktPubComp]("select", 0, 1))) &&
+//@        (itType() == packetUnsubAck ==> iterFresh(evArg[*pktUnsubAck]("select", 0, 1)))
 //@   loop 1 iter[C07] ack_unsuback: itRead() && itType() == packetUnsubAck ==>
 //@        evCount("(*signaller).UnsubAck") == 1 && evArg[uint16]("(*signaller).UnsubAck", 0, 1) == evRet[*pktUnsubAck]("(*pktUnsubAck).Parse", 0, 0).ID &&
 //@        evCount("select") == ite(evRet[bool]("(*signaller).UnsubAck", 0, 1), 1, 0) && evCount("send") == 0 &&
